@@ -198,6 +198,49 @@ func exec(t []string) string {
 			}
 		}
 		return bitsOf(f) + " " + sb.String()
+	case "load":
+		var fl msg.FilterLoad
+		if err := fl.Deserialize(bytes.NewReader(hx.UnHex(t[1]))); err != nil {
+			return "err"
+		}
+		var tt []byte
+		for _, x := range fl.TxTypes {
+			tt = append(tt, byte(x))
+		}
+		return fmt.Sprintf("ok %s %d %d %s", hx.Hex(fl.Filter), fl.HashFuncs, fl.Tweak, hx.Hex(tt))
+	case "peer": // peer <wire> <n> d.. <m> (<hash> <ph> <lock>)..: the path a remote peer drives (TxFilter)
+		tf := bloom.NewTxFilter()
+		if err := tf.Load(hx.UnHex(t[1])); err != nil {
+			return "err"
+		}
+		n := atoi(t[2])
+		k := 3
+		for i := 0; i < n; i++ {
+			if err := tf.Add(hx.UnHex(t[k])); err != nil {
+				return "err-add"
+			}
+			k++
+		}
+		m := atoi(t[k])
+		k++
+		var sb strings.Builder
+		for i := 0; i < m; i++ {
+			tx := buildTx(2, u32(t[k+2]), [][]byte{hx.UnHex(t[k+1])}, nil)
+			h := tx.Hash()
+			if !bytes.Equal(h[:], hx.UnHex(t[k])) {
+				return "hash-mismatch"
+			}
+			if tf.MatchUnconfirmed(tx) {
+				sb.WriteByte('1')
+			} else {
+				sb.WriteByte('0')
+			}
+			k += 3
+		}
+		if k != len(t) {
+			panic("harness: trailing tokens in peer op")
+		}
+		return "ok " + sb.String()
 	case "tx":
 		p := parseTx(t)
 		h := p.tx.Hash()
@@ -247,6 +290,26 @@ func oracle(t []string, out string) *hx.Violation {
 					return &hx.Violation{Kind: "false-negative", Detail: fmt.Sprintf("element #%d of the added set does not match afterwards", i)}
 				}
 			}
+		}
+	case "peer":
+		if len(f) != 2 || f[0] != "ok" {
+			return nil
+		}
+		n := atoi(t[2])
+		watched := map[string]bool{}
+		for i := 0; i < n; i++ {
+			watched[t[3+i]] = true
+		}
+		var fl msg.FilterLoad
+		if fl.Deserialize(bytes.NewReader(hx.UnHex(t[1]))) != nil || fl.Tweak == math.MaxUint32 {
+			return nil
+		}
+		k := 3 + n + 1
+		for i := 0; i < len(f[1]); i++ {
+			if watched[t[k+1]] && f[1][i] != '1' {
+				return &hx.Violation{Kind: "tx-false-negative", Detail: fmt.Sprintf("transaction #%d pays to a script hash added with filteradd but is not matched", i)}
+			}
+			k += 3
 		}
 	case "tx":
 		if len(f) != 2 {
@@ -310,6 +373,8 @@ func nontrivial(t []string, out string) bool {
 		return t[1] != "-" && t[2] != "0" && out != "panic"
 	case "tx":
 		return strings.HasPrefix(out, "true") || atoi(t[8]) > 0
+	case "load":
+		return len(t[1]) > 2
 	}
 	return true
 }
@@ -331,6 +396,8 @@ func bucket(t []string, out string) string {
 			return t[0] + "/empty-filter"
 		}
 		return t[0] + "/ok"
+	case "load", "peer":
+		return t[0] + "/" + cls
 	case "tx":
 		mode := "normal"
 		if t[3] == "4294967295" {
@@ -602,6 +669,92 @@ func gen(g *hx.Gen) {
 	}
 }
 
+func wireOf(r *hx.Rand) []byte {
+	fl := &msg.FilterLoad{Filter: r.Bytes(r.Pick(0, 0, 1, 2, 8, 100, 252, 253, 300)), HashFuncs: uint32(r.Pick(0, 1, 2, 10, 50, 51)),
+		Tweak: uint32(r.U64()), Flags: r.Byte()}
+	if r.Chance(10) {
+		fl.Tweak = math.MaxUint32
+	}
+	for i := r.Pick(0, 0, 1, 3); i > 0; i-- {
+		fl.TxTypes = append(fl.TxTypes, ctypes.TxType(r.Intn(40)))
+	}
+	buf := new(bytes.Buffer)
+	fl.HashFuncs %= 51
+	if err := fl.Serialize(buf); err != nil {
+		panic("harness: cannot serialize filterload")
+	}
+	return buf.Bytes()
+}
+
+func genLoad(g *hx.Gen) {
+	r := g.R
+	for i := 0; i < g.N(1500, 15000); i++ {
+		w := wireOf(r)
+		switch r.Intn(8) {
+		case 0: // truncated anywhere
+			w = w[:r.Intn(len(w)+1)]
+		case 1: // hash funcs 51..
+			if len(w) > 10 {
+				w = append([]byte(nil), w...)
+				// the HashFuncs field follows the var-bytes
+				w[len(w)-1] ^= 0xff
+			}
+		case 2: // non canonical / large length prefixes
+			w = append([]byte{0xfd, byte(r.Pick(0, 1, 0xfc, 0xfd)), 0}, r.Bytes(r.Intn(300))...)
+		case 3:
+			w = append([]byte{byte(r.Pick(0xfe, 0xff))}, r.Bytes(r.Intn(20))...)
+		case 4: // filter larger than allowed
+			w = append([]byte{0xfd, 0xa1, 0x8c}, r.Bytes(40)...)
+		case 5: // tx types prefix tricks: discriminant at the very end, partial wide count, more types announced than present
+			base := wireOf(r)
+			if n := len(base); n > 0 {
+				base = base[:n-1]
+			}
+			w = append(base, [][]byte{{0xfd}, {0xfd, 1}, {0xfe}, {0xff, 1, 2}, {9, 1, 2}, {0xfd, 0xfd, 0, 7}, {0xfd, 1, 0}}[r.Intn(7)]...)
+		case 6:
+			w = r.Bytes(r.Intn(30))
+		}
+		g.Emit("load %s", hx.Hex(w))
+	}
+	// exactly at the size limit
+	for _, n := range []int{35999, 36000, 36001} {
+		fl := &msg.FilterLoad{Filter: make([]byte, 36000), HashFuncs: 50}
+		buf := new(bytes.Buffer)
+		fl.Serialize(buf)
+		w := buf.Bytes()
+		if n != 36000 { // patch the length prefix
+			w = append([]byte{0xfd, byte(n), byte(n >> 8)}, w[3:]...)
+		}
+		g.Emit("load %s", hx.Hex(w))
+	}
+	// the whole remote path: filterload bytes, filteradds, then transactions paying to watched / unwatched hashes
+	for i := 0; i < g.N(600, 6000); i++ {
+		w := wireOf(r)
+		if r.Chance(10) {
+			w = w[:r.Intn(len(w)+1)]
+		}
+		var phs [][]byte
+		for j := 0; j < 5; j++ {
+			phs = append(phs, r.Bytes(21))
+		}
+		n := r.Intn(4)
+		var sb strings.Builder
+		fmt.Fprintf(&sb, "peer %s %d", hx.Hex(w), n)
+		for j := 0; j < n; j++ {
+			sb.WriteString(" " + hx.Hex(phs[j]))
+		}
+		m := r.Intn(5)
+		fmt.Fprintf(&sb, " %d", m)
+		for j := 0; j < m; j++ {
+			ph := phs[r.Intn(len(phs))]
+			lock := uint32(r.U64())
+			h := buildTx(2, lock, [][]byte{ph}, nil).Hash()
+			fmt.Fprintf(&sb, " %s %s %d", hx.Hex(h[:]), hx.Hex(ph), lock)
+		}
+		g.Emit("%s", sb.String())
+	}
+}
+
 func main() {
-	hx.Main(&hx.Prop{Name: "C39", Gen: gen, Exec: exec, Oracle: oracle, Nontrivial: nontrivial, Bucket: bucket})
+	hx.Main(&hx.Prop{Name: "C39", Gen: func(g *hx.Gen) { gen(g); genLoad(g) }, Exec: exec, Oracle: oracle, Nontrivial: nontrivial, Bucket: bucket})
 }
